@@ -11,6 +11,49 @@ import (
 type Term struct {
 	Op   string
 	Args []*Term
+
+	str  string // cached rendering
+	info *tinfo // cached summary (for root terms)
+}
+
+// tinfo summarises a term: applications (nodes with arguments), symbols, quantifiers, dummies.
+type tinfo struct {
+	apps  []*Term
+	syms  map[string]bool
+	quant bool
+	dummy []string
+}
+
+func (t *Term) summary() *tinfo {
+	if t.info != nil {
+		return t.info
+	}
+	ti := &tinfo{syms: map[string]bool{}}
+	seen := map[*Term]bool{}
+	var rec func(x *Term)
+	rec = func(x *Term) {
+		if seen[x] {
+			return
+		}
+		seen[x] = true
+		ti.syms[x.Op] = true
+		if x.Op == "forall" || x.Op == "exists" {
+			ti.quant = true
+		}
+		if len(x.Args) == 0 {
+			if strings.HasPrefix(x.Op, "DUMMY_") {
+				ti.dummy = append(ti.dummy, x.Op)
+			}
+		} else {
+			ti.apps = append(ti.apps, x)
+		}
+		for _, a := range x.Args {
+			rec(a)
+		}
+	}
+	rec(t)
+	t.info = ti
+	return ti
 }
 
 // accessorOf maps a datatype accessor to (constructor, field index) so that accessor(constructor(...))
@@ -66,12 +109,23 @@ func StrLit(s string) *Term {
 }
 
 func (t *Term) String() string {
+	if t.str != "" {
+		return t.str
+	}
 	var sb strings.Builder
 	t.write(&sb)
+	if len(t.Args) > 0 {
+		t.str = sb.String()
+		return t.str
+	}
 	return sb.String()
 }
 
 func (t *Term) write(sb *strings.Builder) {
+	if t.str != "" {
+		sb.WriteString(t.str)
+		return
+	}
 	if len(t.Args) == 0 {
 		sb.WriteString(t.Op)
 		return
